@@ -25,7 +25,14 @@ func c06Check(cc *run.Case, ns namedStrat, class string, n int) {
 	row := ns.Row
 	snaps := reg.Snaps(gen.Bars(cc.R, class, n))
 	cc.Desc(map[string]any{"strategy": ns.Name, "class": class, "n": n, "w_s": ns.Warm})
-	actual := runStrat(ns.New(), snaps)
+	inst := ns.New()
+	if n == 251 {
+		// The instance under test has already served another series (as a
+		// backtest over several assets does): the rule must still hold.
+		runStrat(inst, reg.Snaps(gen.Bars(cc.R, gen.Walk, ns.Warm+25)))
+		cc.Count("reused_instance_runs", 1)
+	}
+	actual := runStrat(inst, snaps)
 	cc.Count("runs", 1)
 	cc.Count("cmp:"+row.Name, 1)
 	want := row.Rule(ns.New(), snaps)
